@@ -431,11 +431,13 @@ class Unit:
             if ty == 'char':
                 cond = ' || '.join('c == %s' % e for e in elems) or 'false'
                 generated.append("/// R6: generated from `static %s: phf::Set<char> = phf_set!{..}` (%d elements; phf lookup == membership in this literal is ASSUMED)\n"
-                                 "#[verifier::external_body]\nfn vset_%s_contains(c: char) -> (r: bool)\n    ensures r == (%s)\n{ unimplemented!() }" % (nm, len(elems), nm, cond))
+                                 "spec fn vset_%s_spec(c: char) -> bool { %s }\n"
+                                 "#[verifier::external_body]\nfn vset_%s_contains(c: char) -> (r: bool)\n    ensures r == vset_%s_spec(c)\n{ unimplemented!() }" % (nm, len(elems), nm, cond, nm, nm))
             else:
-                cond = ' || '.join('c@ == %s@' % e for e in elems) or 'false'
+                cond = ' || '.join('c == %s@' % e for e in elems) or 'false'
                 generated.append("/// R6: generated from `static %s: phf::Set<&str> = phf_set!{..}` (%d elements; phf lookup == membership in this literal is ASSUMED)\n"
-                                 "#[verifier::external_body]\nfn vset_%s_contains(c: &str) -> (r: bool)\n    ensures r == (%s)\n{ unimplemented!() }" % (nm, len(elems), nm, cond))
+                                 "spec fn vset_%s_spec(c: Seq<char>) -> bool { %s }\n"
+                                 "#[verifier::external_body]\nfn vset_%s_contains(c: &str) -> (r: bool)\n    ensures r == vset_%s_spec(c@)\n{ unimplemented!() }" % (nm, len(elems), nm, cond, nm, nm))
             text_body = pat.sub('', text_body)
             text_body = re.sub(re.escape(nm) + r'\.contains\(&?([^()]*(?:\([^()]*\))?[^()]*)\)', r'vset_%s_contains(\1)' % nm, text_body)
             log.append(('R6', 'phf_set %s (%d elements) -> generated membership function' % (nm, len(elems)), 1))
@@ -505,11 +507,11 @@ class Unit:
                 out_lines.append(bl)
             text_body = '\n'.join(out_lines)
         attrs = ''.join(a[1] + '\n' for a in sec.block('attr'))
-        full = ''.join(g + '\n' for g in generated) + attrs + text_sig + '\n' + '\n'.join(contract) + ('\n' if contract else '') + '{' + text_body + '}'
+        full = attrs + text_sig + '\n' + '\n'.join(contract) + ('\n' if contract else '') + '{' + text_body + '}'
         mb = mask(text_body)
         n_closures = len(re.findall(r'(?<![|&\w\)\]])\|(?!\|)[^|\n;{}]*\|(?!\|)', re.sub(r'(forall|exists|choose)\s*\|[^|]*\|', '', mb)))
         n_loops = len(loops_in(text_body))
-        info = {'emitted': emitted, 'file': 'src/' + fname, 'path': path, 'sha': sha, 'line': line,
+        info = {'emitted': emitted, 'file': 'src/' + fname, 'path': path, 'sha': sha, 'line': line, 'generated': generated,
                 'needs_contract': ((['a closure (Verus needs an explicit closure contract)'] if n_closures and not sec.one('allow-closure') else []) +
                                    (['%d loop(s) but the contract file provides invariants for %d' % (n_loops, len(sec.block('loop')))] if n_loops > len(sec.block('loop')) else [])),
                 'contract': {kw: (sec.one(kw)[1] + ' ' + sec.one(kw)[2]).strip() for kw in ('requires', 'ensures', 'decreases') if sec.one(kw)}}
@@ -586,6 +588,8 @@ class Unit:
                 mutated |= mu is not None
                 text, impl, info = self._extract_fn(s, mu)
                 em.add("// ---- extracted fn %s line %d sha %s ----" % (s.arg, info['line'], info['sha']))
+                for g in info.get('generated', []):
+                    em.add(g)
                 if impl:
                     em.add(impl + " {")
                 em.add(text, owner=info['emitted'], ref=info)
